@@ -758,6 +758,19 @@ pub fn meta(id: &str, tier: &str) -> Option<Meta> {
             pin_workers: false,
         });
     }
+    #[cfg(all(feature = "hooks", not(feature = "conc")))]
+    if id == "C25" {
+        return Some(Meta {
+            engine: "E4 edgex (exhaustive enumeration of edge sequences over the boundary classes of the encoding, through hook H1)",
+            config: if cfg!(feature = "persist") { "persist" } else { "seq" },
+            rule: "every sequence of edges up to the stated length over the alphabet kind{input,output} x ingredient{0,1,0xFFE,0xFFF,0x1000,0x7FFFFFFF} x index{0,1,2^31,max} x generation{0,1,0xFFFFF,0x100000,u32::MAX} (240 edges), x origin kind {derived, untracked} x 5 combinations of extra revision data; each stored through salsa's real constructors and decoded again. states = edge sequences, transitions = construct / attach-extra / clear-edges / serialize / deserialize operations checked, non-trivial = sequences containing an output edge or a value outside the compact encoding.",
+            bounds: json!({"max_sequence_length": if tier == "quick" { 2 } else { 3 }, "edge_alphabet": 240, "extra_combinations": 5, "origin_kinds": 2}),
+            assumptions: vec!["the hook functions only call salsa's crate-private constructors and accessors".into()],
+            extra: json!({}),
+            max_workers: 64,
+            pin_workers: false,
+        });
+    }
     #[cfg(feature = "conc")]
     {
         if id == "LITMUS" {
@@ -797,6 +810,10 @@ pub fn worker(id: &str, tier: &str, w: usize, n: usize) -> WorkerOut {
             return e1::run_fault_worker(&s, w, n);
         }
         return e1::run_worker(&s, w, n);
+    }
+    #[cfg(all(feature = "hooks", not(feature = "conc")))]
+    if id == "C25" {
+        return crate::e4::run_worker(tier, w, n);
     }
     #[cfg(feature = "conc")]
     {
@@ -839,6 +856,11 @@ fn rerun_fault(v: &Viol) -> Option<Option<(String, String, usize)>> {
 
 pub fn confirm(id: &str, v: &Viol) -> Confirm {
     match v.case.get("engine").and_then(|e| e.as_str()) {
+        #[cfg(all(feature = "hooks", not(feature = "conc")))]
+        Some("e4") => match (crate::e4::replay(&v.case), crate::e4::replay(&v.case)) {
+            (Some(Some(_)), Some(Some(_))) => Confirm::Reproduced,
+            _ => Confirm::NotReproduced,
+        },
         Some("e1-fault") => match (rerun_fault(v), rerun_fault(v)) {
             (Some(Some(x)), Some(Some(y))) if x.0 == y.0 => Confirm::Reproduced,
             _ => Confirm::NotReproduced,
@@ -868,6 +890,19 @@ pub fn confirm(id: &str, v: &Viol) -> Confirm {
 pub fn replay(id: &str, path: &str) -> i32 {
     let v = crate::evid::read_replay(std::path::Path::new(path));
     match v.case.get("engine").and_then(|e| e.as_str()) {
+        #[cfg(all(feature = "hooks", not(feature = "conc")))]
+        Some("e4") => match crate::e4::replay(&v.case) {
+            Some(Some(msg)) => {
+                println!("VIOLATION property={id} replay={path}");
+                println!("  {msg}");
+                1
+            }
+            Some(None) => {
+                println!("replay of {path}: property {id} holds on this case");
+                0
+            }
+            None => 2,
+        },
         Some("e1-fault") => match rerun_fault(&v) {
             Some(Some((oracle, msg, step))) => {
                 println!("VIOLATION property={id} replay={path}");
